@@ -1,6 +1,7 @@
 /-
-  A printer with a fixed number of decimal digits that satisfies `Codec.Printer` (non-vacuity of the C13 theorems for a
-  lossy number format).
+  A printer with a fixed number of decimal digits that satisfies `Codec.Printer` (= `Codec.PrinterOn` with the trivial
+  domain: every law for every number; non-vacuity of the C13 theorems for a lossy number format).  The printer with a
+  genuine domain — C18's sexagesimal formatter — is instantiated in Lemmas/DecimalCodecC13.lean.
 -/
 import Std.Data.String.ToNat
 import Gama.Lemmas.ExportQuant
@@ -107,10 +108,10 @@ theorem decCodec_printer : decCodec.Printer decQ decQd :=
       show decRdDeg (Nat.repr ((x + 9) / 10)) = none
       exact decRdDeg_repr _ (repr_not_d _)
     fmt_ne := fun x => repr_ne_empty _
-    rdDeg_fmtDeg := fun x => by
+    rdDeg_fmtDeg := fun x _ => by
       show decRdDeg (decFmtDeg x) = some (decQd x)
       exact decRdDeg_fmtDeg x
-    fmtDeg_qd := fun x => by
+    fmtDeg_qd := fun x _ => by
       show decFmtDeg (decQd x) = decFmtDeg x
       exact decFmtDeg_round x
     fromSec_toSec := fun x => by
@@ -122,6 +123,7 @@ theorem decCodec_printer : decCodec.Printer decQ decQd :=
 
 instance : DecidablePred (fun x : Nat => decQ x = x) := fun x => inferInstanceAs (Decidable (decQ x = x))
 instance : DecidablePred (fun x : Nat => decQd x = x) := fun x => inferInstanceAs (Decidable (decQd x = x))
+instance : DecidablePred (fun x : Nat => True ∧ decQd x = x) := fun x => inferInstanceAs (Decidable (True ∧ decQd x = x))
 
 /-- numbers with a last digit the printer drops; en + left-handed is inconsistent (y, dy mirrored) -/
 def lossyNet : Net Nat :=
@@ -131,7 +133,7 @@ def lossyNet : Net Nat :=
                ⟨"C", some (6, 7), none, .unused, .unused⟩],
     clusters := [.vectors [⟨"A", "B", 31, 32, 33, 0, 0, ""⟩] ⟨3, 2, [11, 1, 2, 12, 3, 13]⟩] }
 
-theorem lossyNet_WF : (quantNet decCodec decQ decQd lossyNet).WF decCodec (fun x => decQ x = x) (fun x => decQd x = x) := by
+theorem lossyNet_WF : (quantNet decCodec decQ decQd lossyNet).WF decCodec (fun x => decQ x = x) (fun x => True ∧ decQd x = x) := by
   decide
 
 /-- the same with output in degrees (`angles="360"`), an `<obs>` cluster with a direction, an angle, a distance and a
@@ -145,7 +147,7 @@ def lossyNetDeg : Net Nat :=
          (some ⟨3, 2, [1006009, 17, 23, 10201, 31, 4004001]⟩)] }
 
 theorem lossyNetDeg_WF :
-    (quantNet decCodec decQ decQd lossyNetDeg).WF decCodec (fun x => decQ x = x) (fun x => decQd x = x) := by
+    (quantNet decCodec decQ decQd lossyNetDeg).WF decCodec (fun x => decQ x = x) (fun x => True ∧ decQd x = x) := by
   decide
 
 end Gama.Export
